@@ -362,8 +362,12 @@ struct Driver {
     // the four oriented triangles of tet (v0,v1,v2,v3) in the order of add_cell(v0..v3)
     static std::vector<std::vector<int>> tet_tris(int a, int b, int c, int d) { return {{a, b, c}, {a, c, d}, {a, d, b}, {b, d, c}}; }
     // would the tet (v0..v3) fit: none of its four halffaces is occupied, and no live cell has the same vertex set
+    bool tet_occupied(int a, int b, int c, int d) const {
+        for (auto& t : tet_tris(a, b, c, d)) { int hf = find_hf_by_verts(t); if (hf >= 0 && hf_in_live_cell(hf)) return true; }
+        return false;
+    }
     bool tet_fits(int a, int b, int c, int d) const {
-        for (auto& t : tet_tris(a, b, c, d)) { int hf = find_hf_by_verts(t); if (hf >= 0 && hf_in_live_cell(hf)) return false; }
+        if (tet_occupied(a, b, c, d)) return false;
         std::set<int> s{a, b, c, d};
         for (int x : live(3)) if (cell_vset(x) == s) return false;
         return true;
@@ -419,9 +423,8 @@ struct Driver {
             if (a.size() < 2 || (size_t)a[1] + 2 != a.size() || !allLiveV(a, 2) || !distinct(a, 2)) return false;
             if (a[1] != 4) { malformed = true; return true; }
             if (!full()) { malformed = true; return true; }              // rejected: needs all incidences
-            bool fits = tet_fits((int)a[2], (int)a[3], (int)a[4], (int)a[5]);
-            if (!fits) { malformed = true; return a[0] == 1 && fbu(); }  // only the checked call refuses an occupied halfface
-            return true;
+            if (tet_occupied((int)a[2], (int)a[3], (int)a[4], (int)a[5])) { malformed = true; return a[0] == 1 && fbu(); }  // only the checked call refuses an occupied halfface
+            return tet_fits((int)a[2], (int)a[3], (int)a[4], (int)a[5]);
         }
         if (n == "delete_vertex") return a.size() == 1 && liveV((int)a[0]);
         if (n == "delete_edge") return a.size() == 1 && liveE((int)a[0]);
@@ -566,7 +569,7 @@ struct Driver {
         long chk = (long)rng.below(2);
         if (!fits) {
             // only the checked vector overload is specified to refuse; a rejected call may have created faces and edges
-            if (full()) exec(mk("tet_add_cell_v", {1, 4, v[0], v[1], v[2], v[3]}));
+            if (full() && tet_occupied(v[0], v[1], v[2], v[3])) exec(mk("tet_add_cell_v", {1, 4, v[0], v[1], v[2], v[3]}));
             return;
         }
         if (rng.chance(1, 2) && vbu()) preseed(v);
